@@ -151,6 +151,13 @@ Theorem non_negative_parafac_hals_real (T : tensor R) solve inner stop nn sps nm
   vnn (fst out) /\ forall m, In m nn -> mnn (nth m (snd out) []).
 Proof. intros. apply non_negative_parafac_hals_nonneg; auto. apply nrm2_nonneg. Qed.
 
+Theorem non_negative_tucker_real (T : tensor R) eps stop nm n_modes n core Fs :
+  0 < eps -> vnn (data core) -> Forall mnn Fs ->
+  let out := non_negative_tucker Rops nrm2 eps (fun _ => tk_mu_num Rops T) (fun _ => tk_mu_den Rops)
+                                 (fun _ => tk_mu_numc Rops T) (fun _ => tk_mu_denc Rops) stop nm n_modes n (core, Fs) in
+  vnn (data (fst out)) /\ Forall mnn (snd out).
+Proof. intros. apply non_negative_tucker_nonneg; auto. apply nrm2_nonneg. Qed.
+
 (* ------------------------------------------------------------------ what does NOT hold (executed over Q, the same functions) *)
 From Coq Require Import QArith.
 Definition qneg (x : Q) : Prop := Qle_bool 0 x = false.
